@@ -24,6 +24,9 @@ THEOREMS = [
     'C20_radix_orig_panic_refuted',
     'C20_radix_orig_long_refuted',
     'C20_radix_long_witness',
+    'C20_radix_long_is_rne',
+    'C20_f_of_Z_is_rne',
+    'C20_radix_long_nonvacuous',
     'C20_base64_decode_encode',
     'C20_base64_string_roundtrip',
     'C20_base64_alphabet_padding',
@@ -44,8 +47,8 @@ THEOREMS = [
     'C20_dollars_doubling',
     'C20_esc_nonvacuous',
 ]
-# real-number axioms of Coq's standard library, reached through Flocq by C20_radix_value_exact only
-# (finiteness of the nearest-even double of an integer below 2^128)
+# real-number axioms of Coq's standard library, reached through Flocq (shr_truncate, binary_normalize_correct)
+# by C20_radix_value_exact, C20_radix_long_is_rne and C20_f_of_Z_is_rne only
 ALLOWED_AXIOMS = {'ClassicalDedekindReals.sig_not_dec', 'ClassicalDedekindReals.sig_forall_dec',
                   'FunctionalExtensionality.functional_extensionality_dep', 'Classical_Prop.classic'}
 TRANSLATORS = []
